@@ -12,6 +12,7 @@ open GF in
 def stepRPN (st : List G) (ws : List String) : List G :=
   match ws, st with
   | "cs" :: rest, st => G.fn (listCoeff (rest.map parseRat)) :: st
+  | ["dup"], a :: st => a :: a :: st
   | ["add"], b :: a :: st => G.sum a b :: st
   | ["sub"], b :: a :: st => G.sum a (scale (-1) b) :: st
   | ["mul"], b :: a :: st => G.prod a b :: st
